@@ -283,9 +283,20 @@ func ScenarioOf(s Script) string {
 	}
 	for _, p := range s.Procs {
 		walk(p)
+		for _, o := range p {
+			if o.Op == "pub" && o.PFail != "" {
+				flags["append-"+o.PFail] = true
+			}
+		}
+	}
+	if s.Cfg.Store {
+		flags["store"] = true
+	}
+	if s.Cfg.PTimeout {
+		flags["ptimeout"] = true
 	}
 	var ks []string
-	for _, k := range []string{"once", "async", "seq", "filter", "panic", "reentrant"} {
+	for _, k := range []string{"once", "async", "seq", "filter", "panic", "reentrant", "store", "ptimeout", "append-rej", "append-hang"} {
 		if flags[k] {
 			ks = append(ks, k)
 		}
